@@ -3,7 +3,9 @@
 T-route: coq/gen/geodesy.v is regenerated from typhon/geodesy.py on every run; the theorems of Props/C07.v are about
 those generated definitions and about the hand-written model of the loop / line-of-sight code (Model/C07_geodesy.v).
 Tie: pointwise interval enclosures (Coq proves |model(args) - float returned by the code| <= tol), including the
-iterate the loop of cart2geodetic returns and its stop criterion.
+iterate the loop of cart2geodetic returns and its stop criterion -- which, by the theorem iteration_accuracy, puts the
+returned latitude / height within 2e-10 deg / 5 mm of the true geodetic position -- and the number of passes the real
+loop makes (theorem cart2geodetic_terminates_within_accuracy: at most 8).
 Failing-input search: the laws the property states, evaluated on the implementation only (scalar, array and broadcast
 calls; all ellipsoid models; equator, date line, +-180, negative heights, starting latitudes within 1e-10 of 1 rad),
 plus textbook closed forms in extended precision as an independent oracle.
@@ -68,11 +70,16 @@ TRUSTED = [
     "numpy element-wise semantics / broadcasting (scalar, 0-d, array and broadcast calls are compared with the scalar model)",
     "hand-written model of the cart2geodetic loop, tunnel_distance and the two line-of-sight conversions "
     "(Model/C07_geodesy.v), tied by enclosures only",
-    "the convergence rate of the geodetic iteration is not proved (named gap iteration_accuracy): the 1 cm / 1e-7 deg accuracy "
-    "over the domain rests on the numeric law sweep",
+    "the convergence of the geodetic iteration is proved over the reals (contraction factor 0.0126, a-posteriori bound, at most "
+    "8 passes); that the floating-point loop satisfies the stop criterion at the latitude it returns is enclosed pointwise, and "
+    "the number of passes of the real loop is observed through a counting stand-in for the module's `np` (np.arctan calls)",
 ]
 EPS = float(np.finfo(float).eps)
 TOL_STOP = 1e-12        # stop criterion of the (fixed) loop of cart2geodetic, radians
+TOL_STOP_ENCL = TOL_STOP * (1 + 1e-3)   # what the enclosure proves at the returned latitude
+assert TOL_STOP_ENCL <= 2e-12           # hypothesis `tol <= 2e-12` of Props/C07.v iteration_accuracy
+MAX_PASSES = 8          # Props/C07.v cart2geodetic_terminates_within_accuracy: the loop stops after at most 8 passes
+PASS_LIMIT = 60         # a loop still running after this many passes is stopped by the guard (reported as not stopping)
 H_TOL, ANG_TOL = 0.01, 1e-7
 
 
@@ -90,6 +97,96 @@ def models(g):
     em = g.ellipsoidmodels()
     return [(name, (float(em[name][0]), float(em[name][1]))) for name in sorted(em.models)]
 
+
+
+# ----------------------------------------------------------------------------------------------- loop guard / pass counter
+
+class LoopDoesNotStop(RuntimeError):
+    pass
+
+
+class CountingNumpy:
+    """Stands in for the global name `np` of typhon.geodesy while the check runs: everything is numpy's, except that
+    inside a call of cart2geodetic the calls of np.arctan are counted (the loop makes exactly one per pass) and that
+    a loop that has not stopped after PASS_LIMIT passes is ended by an exception instead of hanging the check."""
+
+    def __init__(self, real):
+        self._real = real
+        self.active = False
+        self.passes = 0
+        self.last = None
+
+    def __getattr__(self, name):
+        return getattr(self._real, name)
+
+    def arctan(self, *args, **kw):
+        if self.active:
+            self.passes += 1
+            if self.passes > PASS_LIMIT:
+                raise LoopDoesNotStop(f"the iteration has not stopped after {PASS_LIMIT} passes")
+        return self._real.arctan(*args, **kw)
+
+
+class guard:
+    """with guard(g) as c: ...   installs the counting stand-in and a wrapper of cart2geodetic that resets it per call;
+    c is None when the module has no global `np` (then nothing is counted or guarded)"""
+
+    def __init__(self, g):
+        self.g = g
+        self.real = getattr(g, "np", None)
+        self.orig = getattr(g, "cart2geodetic", None)
+        self.c = CountingNumpy(self.real) if (self.real is np and callable(self.orig)) else None
+
+    def __enter__(self):
+        c, orig = self.c, self.orig
+        if c is None:
+            return None
+
+        def cart2geodetic(*args, **kw):
+            if c.active:                    # re-entrant call: keep counting for the outer one
+                return orig(*args, **kw)
+            c.active, c.passes = True, 0
+            try:
+                return orig(*args, **kw)
+            finally:
+                c.active, c.last, c.passes = False, c.passes, 0
+        cart2geodetic.__doc__ = orig.__doc__
+        self.g.np = c
+        self.g.cart2geodetic = cart2geodetic
+        return c
+
+    def __exit__(self, *exc):
+        if self.c is not None:
+            self.g.np = self.real
+            self.g.cart2geodetic = self.orig
+        return False
+
+
+def law_passes(sw, counter, ell, h, lat, lon, name):
+    """the real loop stops, and within the number of passes the termination theorem gives for the model
+    (h, lat, lon scalars or arrays: an array call runs until every element has converged)"""
+    g = sw.g
+    sc = np.ndim(h) == 0
+    case = {"law": "loop-passes", "ellipsoid": name, "ell": list(ell), "h": float(h) if sc else [float(v) for v in h],
+            "lat": float(lat) if sc else [float(v) for v in lat], "lon": float(lon) if sc else [float(v) for v in lon]}
+    x, y, z = g.geodetic2cart(h, lat, lon, ell)
+    sw.evals += 1
+    counter.last = None
+    try:
+        g.cart2geodetic(x, y, z, ell)
+    except LoopDoesNotStop as ex:
+        sw.report("geodetic-iteration:does-not-stop", f"cart2geodetic(geodetic2cart(h={case['h']!r}, lat={case['lat']!r}, lon={case['lon']!r}, "
+                  f"{name})) does not return: {ex} (the model stops after at most {MAX_PASSES})", case)
+        return None
+    except Exception:  # noqa  (reported by the round-trip laws)
+        return None
+    n = counter.last
+    sw.passes[n] = sw.passes.get(n, 0) + 1
+    if n is not None and n > MAX_PASSES:
+        sw.corr.setdefault("loop-passes", (f"cart2geodetic made {n} passes of its loop at h={case['h']!r}, lat={case['lat']!r}, "
+                                           f"lon={case['lon']!r} ({name}); the model (theorem cart2geodetic_terminates_within_accuracy) stops "
+                                           f"after at most {MAX_PASSES}", case))
+    return n
 
 # ----------------------------------------------------------------------------------------------- generators
 
@@ -114,7 +211,9 @@ class Sweep:
     def __init__(self, g):
         self.g = g
         self.fails = {}         # signature -> (what, case)
+        self.corr = {}          # signature -> (what, case): model and code differ, the property is not shown to fail
         self.evals = 0
+        self.passes = {}        # number of passes of the loop of cart2geodetic -> how often (None: not observable)
 
     def report(self, sig, what, case):
         if sig not in self.fails:
@@ -422,7 +521,22 @@ def law_distances(sw, lat, lon, shift):
         rep("raises", f"distance laws raised {type(ex).__name__}: {ex}", 0)
 
 
-def law_sweep(ctx, g, only=None):
+# scalar calls at fixed positions where a stale or early iterate costs most height ((N + h) tan(lat) per radian): the same
+# for every seed, so that a loosened stop criterion is always met with a failing input
+PROBE_LAT = (88.0, -88.0, 87.999, -87.9, 87.5, -87.0, 86.0, -85.0, 84.0, -82.0, 80.0, -75.0, 70.0, -60.0)
+PROBE_H = (-1e4, 0.0, 3e5, 1e6)
+PROBE_LON = (0.0, 180.0, -180.0, -75.15, 135.0, -0.001, 90.0)
+
+
+def probe_positions():
+    k = 0
+    for la in PROBE_LAT:
+        for hh in PROBE_H:
+            yield hh, la, PROBE_LON[k % len(PROBE_LON)]
+            k += 1
+
+
+def law_sweep(ctx, g, counter=None):
     """All laws on the implementation. Returns the Sweep (fails: signature -> (what, case))."""
     sw = Sweep(g)
     rng = np.random.default_rng(ctx.seed)
@@ -430,6 +544,17 @@ def law_sweep(ctx, g, only=None):
     band = ctx.n(300, 3000)
     for name, ell in models(g):
         h, lat, lon = gen_positions(rng, ctx.n(3000, 100000), band)
+        if ell[1] > 0:
+            # the loop stops, within the passes of the termination theorem (first: a loop that does not stop is met here,
+            # under the guard, before any other law runs into it); then the fixed high-latitude round trips
+            if counter is not None:
+                for hh, la, lo in probe_positions():
+                    law_passes(sw, counter, ell, hh, la, lo, name)
+                for i in rng.integers(0, h.size, ctx.n(60, 2000)):
+                    law_passes(sw, counter, ell, float(h[i]), float(lat[i]), float(lon[i]), name)
+                law_passes(sw, counter, ell, h[:200], lat[:200], lon[:200], name)
+            for hh, la, lo in probe_positions():
+                law_geodetic_roundtrip(sw, ell, hh, la, lo, name)
         vec_laws(sw, ell, name, h, lat, lon)
         # scalar calls: boundary block, uniform block, high-latitude band (worst conditioning of the height)
         idx = np.concatenate([np.arange(0, 40), 10 + rng.integers(0, h.size - band - 10, n_scalar),
@@ -485,11 +610,20 @@ def law_sweep(ctx, g, only=None):
 
 def replay_case(g, case):
     """Re-evaluates the law of a recorded failing input on the tree under test; returns the failures found."""
+    with guard(g) as counter:
+        return _replay_case(g, case, counter)
+
+
+def _replay_case(g, case, counter):
     sw = Sweep(g)
     law = case.get("law", "")
     ell = tuple(case.get("ell", (6378137.0, 0.0818191908426)))
     name = case.get("ellipsoid", "?")
-    if law == "geodetic-roundtrip":
+    if law == "loop-passes":
+        if counter is not None:
+            sc = not isinstance(case["h"], list)
+            law_passes(sw, counter, ell, *((case[k] if sc else np.array(case[k])) for k in ("h", "lat", "lon")), name)
+    elif law == "geodetic-roundtrip":
         law_geodetic_roundtrip(sw, ell, case["h"], case["lat"], case["lon"], name)
         vec_laws(sw, ell, name, np.array([case["h"]] * 2), np.array([case["lat"]] * 2), np.array([case["lon"]] * 2))
     elif law == "cartesian-roundtrip":
@@ -550,6 +684,11 @@ def enclosure_cases(ctx, g):
         E = f"{R(a)} {R(e)}"
         h, lat, lon = gen_positions(rng, npos, 2)
         pick = np.concatenate([rng.choice(10, 3, replace=False), np.arange(10, 10 + npos + 2)])
+        if e > 0:
+            # the corners of the domain where the stop criterion is worth most height: always enclosed
+            corners = np.array([(-1e4, 88.0, -180.0), (1e6, -88.0, 135.0), (0.0, 87.999, -75.15)])
+            pick = np.concatenate([pick, np.arange(h.size, h.size + len(corners))])
+            h, lat, lon = np.concatenate([h, corners[:, 0]]), np.concatenate([lat, corners[:, 1]]), np.concatenate([lon, corners[:, 2]])
         for i in pick:
             hi, la, lo = float(h[i]), float(lat[i]), float(lon[i])
             # shapes: scalar, 0-d, 1-d inputs
@@ -581,7 +720,7 @@ def enclosure_cases(ctx, g):
                 add("cart2geodetic:h", f"geod_h {R(a)} ({R(e)} ^ 2) {P} {R(Bf)}", gh, 1e-6 * sc * cond, [x, y, z, a, e, Bf])
                 add("cart2geodetic:lon", f"atan2 {R(y)} {R(x)} * 180 / PI", glo, 1e-11, [x, y, z, a, e])
                 stop_cases.append({"expr": f"(geod_T {R(a)} ({R(e)} ^ 2) {P} {R(z)} {R(Bf)} - {R(Bf)})", "value": 0.0,
-                                   "tol": TOL_STOP * (1 + 1e-3), "prep": UNF,
+                                   "tol": TOL_STOP_ENCL, "prep": UNF,
                                    "meta": {"fn": "cart2geodetic:stop-criterion", "args": [x, y, z, a, e, Bf], "value": 0.0}})
     # spherical <-> cartesian, distances, line of sight
     m = ctx.n(10, 80)
@@ -652,6 +791,12 @@ def check_table(ctx, g):
 
 def run(ctx):
     from typhon import geodesy as g
+    # every call of cart2geodetic below runs under the guard: a loop that does not stop becomes an exception (a failing input)
+    with guard(g) as counter:
+        return _run(ctx, g, counter)
+
+
+def _run(ctx, g, counter):
     missing = encl.translate(ctx, ["geodesy"], NEEDED)
     proved = ctx.prove("Props/C07.v")
     if not missing:
@@ -682,21 +827,32 @@ def run(ctx):
         for c in cases[:2] + cases[-2:] + stop_cases[:1]:
             ctx.sample(c["meta"])
     # 2. the laws of the property on the implementation (failing-input search)
-    sw = law_sweep(ctx, g)
+    sw = law_sweep(ctx, g, counter)
     ctx.cov["evaluations"] += sw.evals
     ctx.cov["law_evaluations"] = sw.evals
     for sig, (what, case) in sw.fails.items():
         ctx.fail("failing-input", what, case=case, signature=sig)
+    for sig, (what, case) in sw.corr.items():
+        ctx.fail("correspondence", what, case=case, signature=sig)
+    # passes of the real loop (np.arctan calls inside cart2geodetic), against the bound of the termination theorem
+    obs = {k: v for k, v in sw.passes.items() if k}
+    ctx.cov["loop_passes"] = {"bound_proved": MAX_PASSES, "observed": {str(k): v for k, v in sorted(obs.items())},
+                              "not_observable": sw.passes.get(0, 0) + sw.passes.get(None, 0) + (0 if counter is not None else 1)}
+    if obs:
+        ok = max(obs) <= MAX_PASSES
+        ctx.add_obligation(f"the loop of cart2geodetic stops within the {MAX_PASSES} passes of the termination theorem "
+                           f"({sum(obs.values())} calls, at most {max(obs)} passes)", ok, "" if ok else f"{max(obs)} passes")
     ctx.cov["rule"] = ("enclosure cases: (function, component, arguments) at generated positions for all six ellipsoid models (equator, "
                        "date line, +-180, +-88 deg, negative heights; scalar / 0-d / array inputs), the iterate returned by the "
-                       "cart2geodetic loop and its stop criterion; a case counts as distinct and non-trivial when Coq proved the "
+                       "cart2geodetic loop and its stop criterion (also at the +-88 deg corners of both eccentric models); a case counts as distinct and non-trivial when Coq proved the "
                        "enclosure of a distinct term; the law sweep evaluates the stated laws on the implementation at many more "
                        "points (law_evaluations), scalar calls for the iteration")
     ctx.cov["input_distribution"] = ("latitudes uniform in [-88, 88] plus a band 87.5..88, boundary longitudes, heights -10 km..1000 km; "
                                      "geocentric latitudes within 1e-10 rad of 1 rad; LOS: za in [0.5, 179.5], aa in (-180, 180]; "
                                      "distances: uniform, near-coincident, near-antipodal, poles, date line")
     ctx.assumptions += ["domain as in the property: |lat| <= 88 deg, heights -10 km .. 1000 km, zenith angles away from 0 / 180",
-                        "the contraction bound of the geodetic iteration is a named gap (checked numerically only)"]
+                        "iteration theorems: 3000 km <= a <= 70000 km, e <= 0.11 (proved for the generated table), real arithmetic; "
+                        "the float loop is tied to them by the enclosure of the stop criterion at the returned latitude"]
     return ctx.finish(trusted_base=TRUSTED)
 
 
